@@ -90,3 +90,56 @@ void __wrap_free(void *p) {
     if (hxw_count_on && p != NULL) { ev("f"); hxw_live_blocks--; }
     __real_free(p);
 }
+
+/* ---- scripted entropy / clock / pid (C18 rngint: the REAL randombytes_internal_random.c run deterministically).
+   Pass-through unless hxw_rng_on.  Link with
+   -Wl,--wrap=getentropy,--wrap=gettimeofday,--wrap=getpid,--wrap=open */
+#include <fcntl.h>
+#include <stdarg.h>
+#include <sys/time.h>
+#include <sys/types.h>
+#include <unistd.h>
+int hxw_rng_on, hxw_rng_open_fail;
+const unsigned char *hxw_rng_ent[HXW_RNG_MAX]; long hxw_rng_entlen[HXW_RNG_MAX]; int hxw_rng_nent;   /* entlen < 0: getentropy fails */
+long long hxw_rng_sec[HXW_RNG_MAX], hxw_rng_usec[HXW_RNG_MAX]; int hxw_rng_ntime;                    /* usec < 0: gettimeofday fails */
+long hxw_rng_pid[HXW_RNG_MAX]; int hxw_rng_npid;                                                      /* past the end: the last one repeats */
+size_t hxw_rng_ent_log[HXW_RNG_MAX]; int hxw_rng_ent_calls, hxw_rng_time_calls, hxw_rng_pid_calls, hxw_rng_open_calls;
+
+int __real_getentropy(void *, size_t);
+int __real_gettimeofday(struct timeval *, void *);
+pid_t __real_getpid(void);
+int __real_open(const char *, int, ...);
+
+int __wrap_getentropy(void *buf, size_t n) {
+    int k; size_t i;
+    if (!hxw_rng_on) return __real_getentropy(buf, n);
+    k = hxw_rng_ent_calls++;
+    if (k < HXW_RNG_MAX) hxw_rng_ent_log[k] = n;
+    if (k >= hxw_rng_nent || hxw_rng_entlen[k] < 0) { errno = EIO; return -1; }
+    for (i = 0; i < n; i++) ((unsigned char *) buf)[i] = i < (size_t) hxw_rng_entlen[k] ? hxw_rng_ent[k][i] : 0;
+    return 0;
+}
+int __wrap_gettimeofday(struct timeval *tv, void *tz) {
+    int k;
+    if (!hxw_rng_on) return __real_gettimeofday(tv, tz);
+    k = hxw_rng_time_calls++;
+    if (k >= hxw_rng_ntime || hxw_rng_usec[k] < 0) { errno = EINVAL; return -1; }
+    tv->tv_sec = (time_t) hxw_rng_sec[k]; tv->tv_usec = (suseconds_t) hxw_rng_usec[k];
+    return 0;
+}
+pid_t __wrap_getpid(void) {
+    int k;
+    if (!hxw_rng_on) return __real_getpid();
+    k = hxw_rng_pid_calls++;
+    if (hxw_rng_npid == 0) return 0;
+    return (pid_t) hxw_rng_pid[k < hxw_rng_npid ? k : hxw_rng_npid - 1];
+}
+int __wrap_open(const char *path, int flags, ...) {
+    mode_t mode = 0;
+    if (flags & O_CREAT) { va_list ap; va_start(ap, flags); mode = (mode_t) va_arg(ap, int); va_end(ap); }
+    if (hxw_rng_on && (!strcmp(path, "/dev/random") || !strcmp(path, "/dev/urandom"))) {
+        if (!strcmp(path, "/dev/urandom")) hxw_rng_open_calls++;
+        if (hxw_rng_open_fail) { errno = ENOENT; return -1; }
+    }
+    return __real_open(path, flags, mode);
+}
